@@ -257,7 +257,9 @@ class Addmm(OpDef):
                 ((2, 1), (2, 2), (2, 3))]
         # batched / vector matrix operands: "x1 + x2 @ x3" is defined for them; an implementation restricted to matrices may
         # reject them, but an accepted call must be differentiable like any other
-        ext = [((2, 2), (2, 2, 3), (2, 3, 2)), ((2,), (2, 1, 3), (3, 2)), ((2,), (3,), (3, 2)), ((2, 2), (2, 3), (3,))]
+        ext = [((2, 2), (2, 2, 3), (2, 3, 2)), ((2,), (2, 1, 3), (3, 2)), ((2,), (3,), (3, 2)), ((2, 2), (2, 3), (3,)),
+               # batch dimensions that only one of the two matrix operands has, or has with extent 1
+               ((2, 2), (2, 3), (2, 3, 2)), ((2,), (1, 2, 3), (2, 3, 2)), ((1, 2), (2, 1, 3), (1, 3, 2))]
         return [{"a": L(a), "b": L(b), "c": L(c)} for a, b, c in base] + \
                [{"a": L(a), "b": L(b), "c": L(c), "ext": True} for a, b, c in ext]
 
